@@ -1,0 +1,86 @@
+//go:build verif
+
+package resolver
+
+// Contracts checked by /verif (contract-based deductive verification).
+// This file is comment-only; it is compiled only with -tags=verif.
+//
+// C51 (cluster reference counts). A cluster (or cluster specifier plugin) stays
+// in the resolver's active set while its reference count is positive: the
+// config selector takes one reference for every RPC it routes to the cluster
+// and the RPC's commit hook gives exactly that one back.
+//
+// nchanges/lastold/lastnew speak about the value-changing actions this call
+// itself performed on the atomic counter named refCount.
+
+// pruneActiveClustersAndPlugins: an entry is removed (and a cluster is
+// unsubscribed) only when its reference count reads zero, and the entry
+// removed is the one that was read.
+//@ func (*xdsResolver).pruneActiveClustersAndPlugins
+//@   prop C51
+//@   opt purecalls unsubscribe
+//@   requires r != nil
+//@   loop 1 invariant true
+//@   loop 2 invariant true
+//@   assert at call unsubscribe#1 ci.refCount.Load() == 0
+//@   assert at call delete#1 ci.refCount.Load() == 0 && samemap(arg0, r.activeClusters) && arg1 == cluster
+//@   assert at call delete#2 ci.refCount.Load() == 0 && samemap(arg0, r.activePlugins) && arg1 == cluster
+
+// SelectConfig: an RPC that gets a configuration has taken exactly one
+// reference on the chosen cluster (and on its route cluster) before the
+// configuration is returned, and carries a commit hook; an RPC that is
+// rejected has taken none.
+//@ func (*configSelector).SelectConfig
+//@   prop C51
+//@   opt maypanic
+//@   requires cs != nil
+//@   loop 1 invariant nchanges("clusterInfo.refCount") == 0 && ncalls("Increment") == 0
+//@   loop 2 invariant nchanges("clusterInfo.refCount") == 0 && ncalls("Increment") == 0
+//@   assert at return 1 result0 == nil && result1 != nil && nchanges("clusterInfo.refCount") == 0 && ncalls("Increment") == 0
+//@   assert at return 2 result0 == nil && result1 != nil && nchanges("clusterInfo.refCount") == 0 && ncalls("Increment") == 0
+//@   assert at return 3 result0 == nil && result1 != nil && nchanges("clusterInfo.refCount") == 0 && ncalls("Increment") == 0
+//@   assert at return 4 result0 != nil && result1 == nil
+//@   assert at return 4 result0.OnCommitted != nil
+//@   assert at return 4 ncalls("Increment") == 1
+//@   assert at return 4 nchanges("clusterInfo.refCount") == 1
+//@   assert at return 4 implies(lastold("clusterInfo.refCount") < 2147483647, lastnew("clusterInfo.refCount") == lastold("clusterInfo.refCount") + 1)
+//@   assert at call Increment#1 arg0 == rc && nchanges("clusterInfo.refCount") == 0
+//@   assert at call OnceFunc#1 haskey(cs.clusters, cluster.name) && info == cs.clusters[cluster.name] && nchanges("clusterInfo.refCount") == 1
+//@   assert at call OnceFunc#2 !haskey(cs.clusters, cluster.name) && haskey(cs.plugins, cluster.name) && info == cs.plugins[cluster.name] && nchanges("clusterInfo.refCount") == 1
+
+// The commit hook of a cluster: gives back exactly one reference; the cluster
+// is unsubscribed exactly when that was the last one; the route cluster's
+// reference is given back on every path.
+//@ func (*configSelector).SelectConfig$1
+//@   prop C51
+//@   opt purecalls unsubscribe
+//@   assert at call unsubscribe#1 nchanges("clusterInfo.refCount") == 1 && lastnew("clusterInfo.refCount") == 0
+//@   assert at call Decrement#1 arg0 == rc
+//@   assert at call Decrement#1 nchanges("clusterInfo.refCount") == 1
+//@   assert at call Decrement#1 implies(lastold("clusterInfo.refCount") > -2147483648, lastnew("clusterInfo.refCount") == lastold("clusterInfo.refCount") - 1)
+//@   assert at call Decrement#1 (ncalls("unsubscribe") == 1) == (lastnew("clusterInfo.refCount") == 0)
+//@   assert at return end ncalls("Decrement") == 1
+
+// The commit hook of a plugin.
+//@ func (*configSelector).SelectConfig$2
+//@   prop C51
+//@   opt purecalls sendNewServiceConfig
+//@   assert at call sendNewServiceConfig#1 nchanges("clusterInfo.refCount") == 1 && lastnew("clusterInfo.refCount") == 0
+//@   assert at call Decrement#1 arg0 == rc
+//@   assert at call Decrement#1 nchanges("clusterInfo.refCount") == 1
+//@   assert at call Decrement#1 implies(lastold("clusterInfo.refCount") > -2147483648, lastnew("clusterInfo.refCount") == lastold("clusterInfo.refCount") - 1)
+//@   assert at call Decrement#1 (ncalls("sendNewServiceConfig") == 1) == (lastnew("clusterInfo.refCount") == 0)
+//@   assert at return end ncalls("Decrement") == 1
+
+// stop: the selector gives back its own reference on each of its clusters and
+// plugins; a cluster is unsubscribed (a plugin update is requested) only when
+// the count this very decrement produced is zero.
+//@ func (*configSelector).stop
+//@   prop C51
+//@   opt purecalls unsubscribe sendNewServiceConfig
+//@   loop 1 invariant true
+//@   loop 2 invariant true
+//@   loop 3 invariant true
+//@   loop 4 invariant true
+//@   assert at call unsubscribe#1 lastnew("clusterInfo.refCount") == 0 && implies(lastold("clusterInfo.refCount") > -2147483648, lastold("clusterInfo.refCount") == 1)
+//@   assert at call sendNewServiceConfig#1 lastnew("clusterInfo.refCount") == 0 && implies(lastold("clusterInfo.refCount") > -2147483648, lastold("clusterInfo.refCount") == 1)
